@@ -27,7 +27,7 @@ Lemma value_type_tie_l :
   (* FromRaw builds these kinds *)
   craw (RMap []) = CR (Some (0%nat, Z.to_nat ValueTypeMap, [CS None])) /\
   craw (RSlice []) = CR (Some (0%nat, Z.to_nat ValueTypeSlice, [CS None])) /\
-  craw (RBytes []) = CR (Some (0%nat, Z.to_nat ValueTypeBytes, [CS None])) /\
+  craw (RBytes []) = CR (Some (0%nat, Z.to_nat ValueTypeBytes, [cempty_bytes])) /\
   craw RNil = CI (Z.to_nat ValueTypeEmpty) 0 /\
   (* the scalar tags the harness uses for Str / Int / Double / Bool *)
   map Z.to_nat [ValueTypeStr; ValueTypeInt; ValueTypeDouble; ValueTypeBool] = [1; 2; 3; 4]%nat.
